@@ -133,6 +133,16 @@ impl PduSpec {
             PduSpec::Aspa { .. } => "k:aspa",
         }
     }
+    /// The version octet the PDU is built with.
+    fn version(&self) -> u8 {
+        match self {
+            PduSpec::SerialNotify { version, .. } | PduSpec::SerialQuery { version, .. } | PduSpec::ResetQuery { version }
+            | PduSpec::CacheResponse { version, .. } | PduSpec::V4 { version, .. } | PduSpec::V6 { version, .. }
+            | PduSpec::Eod { version, .. } | PduSpec::CacheReset { version } | PduSpec::RouterKey { version, .. }
+            | PduSpec::Error { version, .. } | PduSpec::Aspa { version, .. } => *version,
+        }
+    }
+
     fn variable(&self) -> bool {
         matches!(self, PduSpec::RouterKey { .. } | PduSpec::Error { .. } | PduSpec::Aspa { .. })
     }
@@ -612,6 +622,11 @@ enum Exp {
     Err,
     /// Ok after consuming exactly this many bytes
     Ok(usize),
+    /// Version octet above 2: the statement pins down versions 0-2 and says a
+    /// wrong version ends in an error; whether a reader at this layer already
+    /// refuses such a PDU or leaves that to its caller is open. Either Ok
+    /// after exactly this many bytes, or an error within the byte bound.
+    Either(usize),
     ErrHeader,
     Unknown,
     /// reader not run: it would allocate the (huge) announced length
@@ -663,6 +678,8 @@ fn model(rd: Rd, k: Kind, s: &[u8]) -> Exp {
                 Exp::Skip
             } else if (s.len() as u64) < len as u64 {
                 Exp::Err
+            } else if ver > 2 {
+                Exp::Either(len as usize)
             } else {
                 Exp::Ok(len as usize)
             }
@@ -712,6 +729,16 @@ fn read_and_judge(rd: Rd, k: Kind, s: &[u8], chunks: &[u8], what: &str) -> Resul
             ensure!(matches!(got, Got::Pdu(_) | Got::Skipped(_)), "{}: expected success, got {}", ctx(), got_name(&got));
             ensure!(served == n, "{}: succeeded after consuming {} octets, announced length is {}", ctx(), served, n);
         }
+        Exp::Either(n) => match &got {
+            Got::Pdu(_) | Got::Skipped(_) => {
+                ensure!(served == n, "{}: succeeded after consuming {} octets, announced length is {}", ctx(), served, n);
+            }
+            Got::Io(_) => {
+                let bound = n.max(8);
+                ensure!(served <= bound, "{}: failed after consuming {} octets, more than max(8, announced length) = {}", ctx(), served, bound);
+            }
+            _ => return Err(Fail::new(format!("{}: expected success or an error, got {}", ctx(), got_name(&got)))),
+        },
         Exp::ErrHeader => {
             match &got {
                 Got::ErrHeader(h) => {
@@ -975,9 +1002,10 @@ fn run_roundtrip(c: &SeqCase, obs: &mut Obs) -> CheckResult {
                 }
                 Got::Io(e) => {
                     // only legitimate for end-of-data with a version the split does not know
-                    let eod_version = matches!(spec, PduSpec::Eod { version, .. } if *version > 2);
+                    // legitimate only for a version octet above 2 (see Exp::Either)
+                    let eod_version = spec.version() > 2;
                     ensure!(
-                        eod_version && matches!(rd, Rd::Dispatch | Rd::Payload),
+                        eod_version,
                         "{:?} of intact PDU {} {:?} failed: {}", rd, i, spec, e
                     );
                 }
@@ -1001,7 +1029,7 @@ fn run_roundtrip(c: &SeqCase, obs: &mut Obs) -> CheckResult {
     for (i, (lib, bytes)) in enc.iter().enumerate() {
         let before = r.served();
         let got = run_reader(Rd::Dispatch, lib.kind(), &mut r)?;
-        let eod_version = matches!(&c.pdus[i], PduSpec::Eod { version, .. } if *version > 2);
+        let eod_version = c.pdus[i].version() > 2;
         match got {
             Got::Pdu(back) => ensure!(&back == lib, "sequence position {}: read {:?}, written {:?}", i, back, lib),
             Got::Skipped(_) => ensure!(matches!(lib, Lib::Error(_)), "sequence position {}: skipped a non-error PDU", i),
@@ -1145,6 +1173,7 @@ fn run_corrupt(c: &CorruptCase, obs: &mut Obs) -> CheckResult {
         label_once(obs, match exp {
             Exp::Err => "exp:err",
             Exp::Ok(_) => "exp:ok",
+            Exp::Either(_) => "exp:ok-or-err(version>2)",
             Exp::ErrHeader => "exp:err-header",
             Exp::Unknown => "exp:unknown-type",
             Exp::Skip => "exp:not-run-alloc",
@@ -1332,6 +1361,12 @@ fn run_payload(c: &PayCase, obs: &mut Obs) -> CheckResult {
     let mut r = MemReader::new(&bytes, &c.chunks);
     let back = match drive("Payload::read", pdu::Payload::read(&mut r))? {
         Ok(Ok(Some(b))) => b,
+        // a version octet above 2 may already be refused here (see Exp::Either)
+        Err(_) if c.version > 2 => {
+            ensure!(r.served() <= bytes.len().max(8), "Payload::read failed after consuming {} of {} octets", r.served(), bytes.len());
+            obs.label("high-version-refused");
+            return Ok(());
+        }
         other => return Err(Fail::new(format!("Payload::read of a written payload PDU gave {:?} for {:?}", other, c))),
     };
     ensure!(r.served() == bytes.len(), "Payload::read consumed {} of {} octets", r.served(), bytes.len());
